@@ -63,6 +63,9 @@ def cases(draw: Any, tier: str) -> dict:
                                   "cleanup": d.weighted([(0, 50), (1, 30), (2, 20)]), "shape": d.weighted([("function", 80), ("object", 20)])}
             if frm == "task":
                 op["via"] = "soon"
+            if handler == "truthy" and outcome in ("event", "forever", "ret") and d.pct(25):
+                # cancelled through its handle, the task fails while it unwinds: an Exception like any other
+                op["cleanup_raise"] = True
             if op["via"] == "start" and d.pct(40):
                 op["status"] = True
             tasks[ntid] = {"state": "running", "outcome": outcome}
@@ -108,6 +111,13 @@ def cases(draw: Any, tier: str) -> dict:
                             "start_from_child": d.pct(25)}
     if handler != "truthy" and d.pct(25):
         case["fatal"] = {"d": d.int(1, 3), "via": d.pick(["start", "soon"]), "body_error": d.pct(40)}
+        if d.pct(60):
+            # siblings that are still running when the fatal task fails: they are ended from outside, not through their handles
+            for _ in range(d.int(1, 3)):
+                ops.insert(len(ops) - 1, {"op": "spawn", "tid": ntid, "via": d.pick(["start", "soon"]), "from": "F", "outcome": d.pick(["ret", "forever"]),
+                                          "d": d.pick([5, 50]), "status": False, "name": None, "cleanup": d.pick([0, 1]), "shape": "function",
+                                          "bystander": True})
+                ntid += 1
     elif d.pct(20):
         case["td_raises_base"] = True  # a teardown callback registered after the factory raises a BaseException
     return case
@@ -236,6 +246,10 @@ class Interp:
                 if op.get("cleanup"):
                     with anyio.CancelScope(shield=True):
                         await anyio.sleep(op["cleanup"])  # the task needs time to clean up
+                if op.get("cleanup_raise") and tid in interp.cancel_requested:
+                    interp.raised[tid] = TaskErr(f"task {tid} failed while unwinding after handle.cancel()")
+                    interp.labels.add("raise-after-cancel")
+                    raise interp.raised[tid] from None
                 raise
             finally:
                 interp.ended[tid] = now()
@@ -462,6 +476,7 @@ class Interp:
             if not hasattr(self, "t_left"):
                 self.t_left = now()  # the block was left by an exception
         self.caught = caught
+        await self.post_wait_check()
         # spawning after the factory's context is gone: the call fails and leaves no handle behind
         if not case["fatal"]:
             for how in case["after_exit"]:
@@ -484,6 +499,32 @@ class Interp:
                     self.disc("handles:phantom-handle", f"after the factory's context was left, start_task{'_soon' if how == 'soon' else ''} "
                               f"{'raised' if raised else 'returned'} and all_task_handles() lists {len(left)} task(s) that are not running")
                     break
+
+    async def post_wait_check(self) -> None:
+        """Every task whose body has ended - by returning, raising, handle.cancel() or a cancellation from outside (the
+        application going down) - has a handle whose wait_finished() returns."""
+        if self.stop:
+            return
+        done: set[int] = set()
+        todo = {tid: h for tid, h in self.handles.items() if tid in self.ended}
+
+        async def waiter(tid: int, h: Any) -> None:
+            await h.wait_finished()
+            done.add(tid)
+
+        async with anyio.create_task_group() as tg:
+            for tid, h in todo.items():
+                tg.start_soon(waiter, tid, h)
+            await checkpoints(8)
+            tg.cancel_scope.cancel()
+        missing = sorted(set(todo) - done)
+        if missing:
+            how = ["cancelled from outside" if self.cancel_seen.get(t) and t not in self.cancel_requested else
+                   ("cancelled through its handle" if t in self.cancel_requested else "ended by itself") for t in missing]
+            self.disc("wait_finished-never-returns", f"after the factory's context was left, wait_finished() of task(s) {missing} ({how}) "
+                      f"still blocks although the task bodies ended at {[self.ended[t] for t in missing]}")
+        if any(self.cancel_seen.get(t) and t not in self.cancel_requested for t in todo):
+            self.labels.add("task-cancelled-from-outside")
 
     def judge(self) -> Outcome:
         case = self.case
@@ -554,7 +595,7 @@ def validate(case: dict) -> None:
             if o["tid"] in state:
                 raise HarnessError("task id used twice")
             state[o["tid"]] = "running"
-            outcome[o["tid"]] = o["outcome"]
+            outcome[o["tid"]] = o["outcome"] if not (o.get("bystander") and case.get("fatal")) else "ret"  # ended by the fatal failure
         elif o["op"] in ("cancel", "set", "wait"):
             if o["tid"] not in state:
                 raise HarnessError("operation on a task that was not spawned")
